@@ -299,6 +299,17 @@ func init() {
 					cs = append(cs, valrelCase(r, shared.Vl(), sep.Vl(), "shared"))
 				}
 			}
+			// strings that contain the renderer's own separators, inside composites
+			mk := func(xs ...string) *val.Val {
+				l := val.List(types.List(types.Str).List(), 0).List()
+				for _, x := range xs {
+					l.V = append(l.V, val.Str(x))
+				}
+				return l.Vl()
+			}
+			for _, p := range [][2]*val.Val{{mk("a, b"), mk("a", "b")}, {mk("x", "y: z"), mk("x, y", "z")}, {mk("[a]"), mk("a")}, {mk("a\"", "b"), mk("a", "\"b")}} {
+				cs = append(cs, valrelCase(r, p[0], p[1], "separator-strings"))
+			}
 			// numbers: the boundary pool against itself
 			for _, x := range hostNumPool {
 				for _, y := range hostNumPool {
